@@ -45,6 +45,10 @@ TEMPLATES = {
              ["try:", "    x{k} = p({k}, '{o}')", "finally: y{k} = 2"]],
     'deco3': [["@pd({k}, '{o}')", "def f{k}():", "    return {k}"],
               ["@pd({k}, '{o}')", "class K{k}(object):", "    z = {k}"]],
+    'asg': [["x{k} = p({k})"], ["x{k} = [p({k}), {k}][1]"]],
+    'echo': [["v({k})"], ["(v({k}))"]],
+    'prn': [["p({k}, '{o}')"]],
+    'exc': [["rz({k}, ValueError('m{k}'))"], ["(rz({k}, ValueError('m{k}: detail')))"]],
     'star': [["from os.path import *"], ["from collections import *  # star"]],
     'pair2': [["x{k} = p({k}, '{o}')", "y{k} = {k}"]],
     'badone': [["x{k} = = 1"], ["def {k}bad(:"], ["x{k} = 1 +"]],
@@ -63,9 +67,14 @@ def _commentable(line):
 
 def template_for(block, rot):
     vs = TEMPLATES[block['shape']]
+    if block['shape'] == 'prn' and block.get('n') == 2:
+        vs = [["p({k}, '{o}', 'q{k}')"], ["p({k}, '{o}', '')"]]          # two printed lines, the second possibly empty (<BLANKLINE>)
+    if block.get('t') == 'ex':
+        # the number of want lines of an example is fixed by the specification: no variant that prints a multi-line string
+        vs = [v for v in vs if not any("'''" in l or '"""' in l for l in v)] or vs
     d = block.get('dir', 'none')
     if d != 'none' and block['shape'] != 'cmt':
-        at = 0 if d in ('first', 'neg') else -1
+        at = 0 if d in ('first', 'neg', 'opt') else -1
         vs = [v for v in vs if _commentable(v[at])] or vs
     return vs[rot % len(vs)]
 
@@ -136,7 +145,7 @@ def decode(raw):
 PLAIN_TEXTS = ['some prose here', 'more words', 'o9', '1 2 3']
 
 
-def render(case, rot, tabs=False, extra_indent=0, texts=None):
+def render(case, rot, tabs=False, extra_indent=0, texts=None, dirs=None):
     """-> (list of text lines, info per line dict(sid, j) ) rendering the abstract line list"""
     blocks = case['blocks']
     out = []
@@ -167,12 +176,15 @@ def render(case, rot, tabs=False, extra_indent=0, texts=None):
         code = tpl[j].format(k=sid, o='o%d' % sid)
         n = len(tpl)
         if b['dir'] != 'none':
-            at = 0 if b['dir'] in ('first', 'neg') else n - 1
+            at = 0 if b['dir'] in ('first', 'neg', 'opt') else n - 1
             if j == at:
+                dtext = (dirs or DIRS)[b['dir']]
+                if callable(dtext):
+                    dtext = dtext(b, sid)
                 if b['shape'] == 'cmt':
-                    code = DIRS[b['dir']]
+                    code = dtext
                 else:
-                    code = code + '  ' + DIRS[b['dir']]
+                    code = code + '  ' + dtext
         if k == 'p1':
             out.append(pad + '>>> ' + code)
         elif k == 'p2':
@@ -291,10 +303,14 @@ def _one(raw):
         variants.append((True, 8 if rot % 2 else 4))       # tab-indented / extra common indentation
     info = {'key': tuple((b['t'], b['shape'], b['style'], b['ind'], b['dir']) for b in case['blocks']), 'err': case['err'], 'f11': case['f11']}
     for tabs, extra in variants:
-        lines = render(case, rot, tabs=tabs, extra_indent=extra)
+        lines = render(case, rot, tabs=tabs, extra_indent=extra, **_JOB.get('render_kw', {}))
         bad = compare_parse(case, lines)
         if _JOB.get('extra'):
-            bad += _JOB['extra'](case, lines, rot)
+            xb = _JOB['extra'](case, lines, rot)
+            if xb and xb[0][0] == 'EXCLUDED':
+                info['excluded'] = xb[0][1]
+                xb = []
+            bad += xb
         if bad:
             info['bad'] = [(f, repr(a), repr(b)) for f, a, b in bad]
             info['text'] = '\n'.join(lines)
@@ -333,6 +349,8 @@ def run_space(out, label, blocks, maxblocks, sig_fn, extra=None, limit=None, tim
     infos = common.parallel_map(_one, raws, chunk=100)
     n_err = n_f11 = 0
     for info in infos:
+        if info.get('excluded'):
+            out.extra['excluded:' + info['excluded']] = out.extra.get('excluded:' + info['excluded'], 0) + 1
         out.traces += 1
         out.evaluations += 1
         out.count_nontrivial(info['key'])
